@@ -211,6 +211,50 @@ def build_generic(name, op, bl, br, requested, self_in_output, self_where_on_ref
     return kani_runner.Program(name, src, sig, desc, True)
 
 
+GENERIC_ASSIGN = """#[derive(Debug, PartialEq)]
+pub struct G<T>(pub T, pub u8);
+pub trait Tr {}
+impl Tr for u8 {}
+pub trait Marker {}
+impl Marker for G<u8> {}
+
+#[derive_ex(%(tr)s)]
+impl<T> core::ops::%(tr)sAssign%(rhs)s for G<T>
+where
+    T: Tr,
+    Self: Marker,
+{
+    fn %(fn)s_assign(&mut self, rhs: %(rhsty)s) {
+        trace_push(%(code)d, self.1, rhs.1);
+        self.1 = wop(%(code)d, self.1, rhs.1);
+    }
+}
+
+fn needs_where<X: core::ops::%(tr)s<%(rhsuse)s, Output = X>>() {}
+
+pub fn check<S: Src>(s: &mut S) {
+    let (xa, yb, t) = (s.u8(), s.u8(), s.u8());
+    needs_where::<G<u8>>();
+    let x = G(t, xa);
+    let y = G(t, yb);
+    trace_reset();
+    let r: G<u8> = core::ops::%(tr)s::%(fn)s(x, %(amp)sy);
+    assert!(r.1 == wop(%(code)d, xa, yb) && r.0 == t, "generic-op-from-assign-value");
+    assert!(trace_len() == 1 && trace_at(0) == (Ev { op: %(code)d, a: xa, b: yb }), "generic-op-from-assign-calls");
+}
+
+"""
+
+
+def build_generic_assign(name, op, br):
+    tr, fn, code = op
+    desc = "generic op=%s from impl %sAssign<%sG<T>> with where-clause (Self: Marker)" % (tr, tr, "&" if br else "")
+    src = e1.HEADER.format(pid=PID, name=name, desc=desc)
+    src += GENERIC_ASSIGN % dict(tr=tr, fn=fn, code=code, rhs="<&G<T>>" if br else "", rhsty="&G<T>" if br else "Self", rhsuse="&'static G<u8>" if br else "G<u8>", amp="&" if br else "")
+    src += e1.harness(unwind=6)
+    return kani_runner.Program(name, src, "generic-assign-base|%s|%d" % (tr, br), desc, True)
+
+
 def run(tier):
     t0 = time.time()
     rnd = random.Random(common.seed())
@@ -235,6 +279,7 @@ def run(tier):
             for c in rnd.sample(configs, 3):
                 cands.append((op, c))
     progs = []
+    gops = OPS if tier == "thorough" else [OPS[9], OPS[rnd.randrange(9)]]
     for op, (base, rhs_self, req) in cands:
         progs.append(build("p%05d" % len(progs), op, base, rhs_self, [r.format(op[0]) for r in req]))
     # the Rhs argument written as `Self` / `&Self`
@@ -243,9 +288,11 @@ def run(tier):
         for base in (("bin", False, False), ("bin", False, True), ("bin", True, True), ("assign", False), ("assign", True)):
             for req in ((["{}"], ["{}Assign"], ["{}", "{}Assign"]) if base[0] == "bin" else (["{}"],)):
                 progs.append(build("p%05d" % len(progs), op, base, True, [r.format(op[0]) for r in req], spell_self=True))
+    for op in gops:
+        for br in (False, True):
+            progs.append(build_generic_assign("p%05d" % len(progs), op, br))
     # known limitation probe: `Self` in the where-clause of a base impl on `&T`
     progs.append(build_generic("p%05d" % len(progs), OPS[9], True, True, ["Sub"], True, self_where_on_ref=True))
-    gops = OPS if tier == "thorough" else [OPS[9], OPS[rnd.randrange(9)]]
     for op in gops:
         for bl, br in ((False, False), (True, True), (False, True), (True, False)):
             for req in (["{}"], ["{}", "{}Assign"], ["{}Assign"]):
